@@ -1,4 +1,4 @@
-CONSTANTS M = 3 N = 3 MaxAttempts = 3 MaxFail = 2 StaleReader = TRUE LockStep = FALSE BufferAll = FALSE
+CONSTANTS M = 3 N = 3 MaxAttempts = 3 MaxFail = 2 StaleReader = TRUE LockStep = FALSE BufferAll = FALSE Timers = {}
 INIT Init
 NEXT Next
 CHECK_DEADLOCK FALSE
